@@ -129,6 +129,13 @@ struct Stats {
 	rewinds_stepwise: u64,
 	rewind_depth_sum: u64,
 	rewinds_over_compacted: u64,
+	/// compactions after which the data file held 0 elements
+	compactions_data_empty: u64,
+	/// … of those, followed by appends in the same session (no reopen in between)
+	empty_then_append: u64,
+	/// compactions after which the hash file held only pruned roots / nothing unspent
+	compactions_all_spent: u64,
+	scripted: u64,
 	reopens: u64,
 	discards: u64,
 	commits: u64,
@@ -155,6 +162,8 @@ struct Run<'a, T: Kind> {
 	/// leaves re-added to the unspent set by the rewind of the current unit
 	readded: Vec<u64>,
 	compacted_once: bool,
+	/// the last compaction emptied the data file and the backend has not been reopened since
+	empty_data_pending: bool,
 }
 
 impl<'a, T: Kind> Run<'a, T> {
@@ -182,6 +191,7 @@ impl<'a, T: Kind> Run<'a, T> {
 			min_idx: 0,
 		};
 		self.compacted_once = false;
+		self.empty_data_pending = false;
 		self.st.histories += 1;
 		self.out.line(&format!("store new {}", T::NAME), "ok");
 	}
@@ -208,6 +218,10 @@ impl<'a, T: Kind> Run<'a, T> {
 				self.bk.unspent.insert(size);
 				self.bk.elems.push(e.clone());
 				self.bk.size = sz;
+				if self.empty_data_pending {
+					self.empty_data_pending = false;
+					self.st.empty_then_append += 1;
+				}
 				sz.to_string()
 			}
 			Ok(Err(_)) => "err".to_string(),
@@ -314,6 +328,12 @@ impl<'a, T: Kind> Run<'a, T> {
 			let back = self.rng.range(0, 3) as usize;
 			(n - 1).saturating_sub(back).max(lo)
 		};
+		self.compact_at(c);
+	}
+
+	/// `check_compact` with the cutoff at committed boundary `c` of the current history
+	fn compact_at(&mut self, c: usize) {
+		let n = self.bk.chain.len();
 		let cutoff = self.bk.chain[c].size;
 		// input_pos_to_rewind(horizon, head): everything spent by the blocks after the cutoff
 		let mut rm: BTreeSet<u64> = BTreeSet::new();
@@ -345,6 +365,13 @@ impl<'a, T: Kind> Run<'a, T> {
 		}
 		self.bk.min_idx = c;
 		self.compacted_once = true;
+		if after.1 == 0 && self.bk.size > 0 {
+			self.st.compactions_data_empty += 1;
+			self.empty_data_pending = true;
+		}
+		if self.bk.unspent.is_empty() && self.bk.size > 0 {
+			self.st.compactions_all_spent += 1;
+		}
 		if let Ok(pl) = PruneList::open(self.dir.join("pmmr_prun.bin")) {
 			self.st.prune_list_sizes.push(pl.len());
 		}
@@ -353,6 +380,7 @@ impl<'a, T: Kind> Run<'a, T> {
 	fn reopen(&mut self) {
 		self.backend = None;
 		self.open();
+		self.empty_data_pending = false;
 		self.out.line("store reopen", "ok");
 		self.st.op("reopen");
 		self.st.reopens += 1;
@@ -742,6 +770,113 @@ impl<'a, T: Kind> Run<'a, T> {
 		self.observe(true, true);
 	}
 
+	/// a simple unit: `n_app` appends, the given spends, then commit or discard; observe
+	fn plain_unit(&mut self, n_app: u64, spends: &[u64], commit: bool) {
+		let saved = self.bk.clone();
+		self.readded.clear();
+		for _ in 0..n_app {
+			self.push();
+		}
+		for p in spends {
+			self.prune(*p);
+		}
+		self.observe(false, false);
+		if commit {
+			self.sync();
+		} else {
+			self.discard(saved);
+		}
+		self.observe(true, true);
+	}
+
+	/// Deterministic family: append 2k leaves, commit, spend (all | all but the last | whole
+	/// peaks only), commit, compact at the latest boundary (optionally at an earlier one first),
+	/// then - WITHOUT reopening - append more leaves over committed and discarded units, observe,
+	/// and only then reopen and observe again.  Targets the state "compacted data file holds 0
+	/// elements, backend kept open, appends follow".
+	fn scripted(&mut self) {
+		for &k in &[1u64, 2, 3, 4, 6, 8] {
+			for variant in 0..3 {
+				for earlier_first in [false, true] {
+					self.fresh();
+					self.st.scripted += 1;
+					let n = 2 * k;
+					// two units so that an earlier boundary exists
+					let first = if earlier_first { k } else { n };
+					self.plain_unit(first, &[], true);
+					if first < n {
+						self.plain_unit(n - first, &[], true);
+					}
+					let size = self.bk.size;
+					let all: Vec<u64> = (0..n).map(pmmr::insertion_to_pmmr_index).collect();
+					let spends: Vec<u64> = match variant {
+						0 => all.clone(),
+						1 => all[..all.len() - 1].to_vec(),
+						_ => {
+							// whole peaks only: every peak except (when there are several) the last
+							let peaks = pmmr::peaks(size);
+							let keep = if peaks.len() > 1 { peaks.len() - 1 } else { peaks.len() };
+							let mut v = vec![];
+							for pk in &peaks[..keep] {
+								v.extend(pmmr::bintree_leaf_pos_iter(*pk));
+							}
+							v
+						}
+					};
+					self.st.pat(match variant {
+						0 => "scripted-spend-all",
+						1 => "scripted-all-but-last",
+						_ => "scripted-whole-peaks",
+					});
+					self.plain_unit(0, &spends, true);
+					let head = self.bk.chain.len() - 1;
+					if earlier_first && head >= 1 {
+						// cutoff at an earlier boundary first (everything was spent after it: nothing to do)
+						self.compact_at(head - 1);
+						self.observe(true, true);
+						self.observe_prune_file();
+					}
+					self.compact_at(head);
+					self.observe(true, true);
+					self.observe_prune_file();
+					// same session, no reopen: keep appending
+					let a1 = 1 + (k + variant as u64) % 5;
+					self.plain_unit(a1, &[], true);
+					self.plain_unit(1 + k % 3, &[], false);
+					let a2 = 1 + (k + 2 * variant as u64 + earlier_first as u64) % 5;
+					let sp: Vec<u64> = self.bk.unspent.iter().cloned().take(1).collect();
+					self.plain_unit(a2, &sp, true);
+					// compact again at the head and append once more in the same session
+					let head = self.bk.chain.len() - 1;
+					self.compact_at(head);
+					self.observe(true, true);
+					self.plain_unit(2, &[], true);
+					// only now drop + reopen
+					self.reopen();
+					self.observe(true, true);
+					self.observe_prune_file();
+					self.plain_unit(1, &[], true);
+					self.backend = None;
+				}
+			}
+		}
+	}
+
+	/// random mix: spend every unspent leaf, commit, compact at the head boundary, and leave the
+	/// backend open so that the following units append to the emptied files
+	fn spend_everything_then_compact(&mut self) {
+		let spends: Vec<u64> = self.bk.unspent.iter().cloned().collect();
+		self.st.pat("spend-everything+compact");
+		self.plain_unit(0, &spends, true);
+		let head = self.bk.chain.len() - 1;
+		self.compact_at(head);
+		self.observe(true, true);
+		self.observe_prune_file();
+		// at least one append-only unit right away, same session
+		let n = self.rng.range(1, 5);
+		self.plain_unit(n, &[], true);
+	}
+
 	fn history(&mut self, units: u64, max_leaves: u64) {
 		self.fresh();
 		// some histories compact often (short rewinds), some rarely (deep rewinds possible)
@@ -752,6 +887,11 @@ impl<'a, T: Kind> Run<'a, T> {
 			}
 			let burst = u == 0 || self.rng.chance(1, 10);
 			self.unit(burst);
+			if self.bk.chain.len() > 1 && self.rng.chance(1, 14) {
+				self.spend_everything_then_compact();
+				// no reopen in this round
+				continue;
+			}
 			if self.bk.chain.len() > 1 && self.rng.chance(1, compact_den) {
 				self.compact();
 				self.observe(true, true);
@@ -869,6 +1009,10 @@ fn print_stats(out: &mut Out, name: &str, st: &Stats) {
 		if pls.is_empty() { 0.0 } else { pls.iter().sum::<u64>() as f64 / pls.len() as f64 }
 	));
 	out.raw(&format!(
+		"#STAT [{}] scripted histories={} compactions leaving the data file with 0 elements={} of which followed by appends before any reopen={} compactions with every leaf spent={}",
+		name, st.scripted, st.compactions_data_empty, st.empty_then_append, st.compactions_all_spent
+	));
+	out.raw(&format!(
 		"#STAT [{}] rewinds={} (stepwise {}; mean depth {:.2} boundaries; after a compaction {}) max leaves={} oracle failures={}",
 		name,
 		st.rewinds,
@@ -900,7 +1044,9 @@ fn run_kind<T: Kind>(out: &mut Out, rng: &mut Rng, histories: u64, units: u64, m
 			},
 			readded: vec![],
 			compacted_once: false,
+			empty_data_pending: false,
 		};
+		run.scripted();
 		for _ in 0..histories {
 			run.history(units, max_leaves);
 		}
